@@ -120,31 +120,49 @@ def _tuplify(o):
     return o
 
 
-def replay_point(mod, point, res, tier, want=None):
-    """Re-execute one violation point; when it does not reproduce alone (its outcome depended on what the unit did
-    before it) re-run the whole unit it was found in, in this fresh process."""
-    mod.replay(point, res)
-    if want is not None and want in res.violations:
-        return
-    unit = point.get('_unit') if isinstance(point, dict) else None
-    if unit is not None and hasattr(mod, 'run_unit'):
-        r = mod.run_unit(_tuplify(unit), tier)
-        res.merge(r)
-        if want is None or want in r.violations:
-            res.notes.append('state-dependent: reproduces by re-running its unit %r' % (unit,))
+def confirm(mod, items, tier):
+    """Re-execute violation points, each in a fresh forked process (a violation may have corrupted process-wide
+    state).  A point that does not reproduce alone - its outcome depended on what its unit did before it - is
+    confirmed by re-running the whole unit in another fresh process (not the one that just executed the point: a
+    memo filled by the lone point would mask the order dependence).  Returns {key: set of violation keys seen}."""
+    out = {}
+    unit_cache = {}
+
+    def _point(unit, tier_):
+        r = Result()
+        mod.replay(unit[1], r)
+        return r
+
+    def _unit(unit, tier_):
+        u = _tuplify(unit[1])
+        if u and isinstance(u[0], str) and u[0].startswith('mc.props.'):
+            from . import hist          # a unit of the history search: (module, spec id, histories to expand)
+            return hist._work(u, tier_)
+        return mod.run_unit(u, tier_)
+
+    for key, point in items:
+        one = common.run_units(_point, [(key, point)], tier, jobs=1, fresh_process_per_unit=True)
+        seen = set(one.violations)
+        unit = point.get('_unit') if isinstance(point, dict) else None
+        if key not in seen and unit is not None:
+            uk = json.dumps(unit, sort_keys=True, default=str)
+            if uk not in unit_cache:
+                unit_cache[uk] = set(common.run_units(_unit, [('unit', unit)], tier, jobs=1, fresh_process_per_unit=True).violations)
+            seen |= unit_cache[uk]
+        out[key] = seen
+    return out
 
 
 def do_replay(mod, path):
     with open(path) as f:
         body = json.load(f)
     common.prepare()
-    res = Result()
-    replay_point(mod, body['point'], res, os.environ.get('VERIF_TIER', 'quick'), want=body['key'])
-    keys = sorted(res.violations)
+    seen = confirm(mod, [(body['key'], body['point'])], os.environ.get('VERIF_TIER', 'quick'))[body['key']]
+    keys = sorted(seen)
     print("replay of %s: expected key %s" % (path, body['key']))
     for k in keys:
-        print("  reproduced: %s :: %s" % (k, res.violations[k][0]))
-    if body['key'] in res.violations:
+        print("  reproduced: %s" % k)
+    if body['key'] in seen:
         print("VIOLATION property=%s replay=%s" % (mod.ID, path))
         return 1
     print("not reproduced")
@@ -187,23 +205,13 @@ def main(argv=None):
                           f, indent=1, sort_keys=True, default=str)
         # confirm every new violation by re-executing its point (determinism / replayability)
         confirmed = []
-        todo = sorted(new, key=lambda t: (t[0], t[1]))[:200]
+        todo = sorted(new, key=lambda t: (t[0], t[1]))[:40]
         # each confirmation runs in a fresh forked process: a violation may have corrupted process-wide state
-        replays = {}
-        if todo:
-            def _rep(unit, tier_):
-                r = Result()
-                replay_point(mod, unit[1], r, tier_, want=unit[0])
-                r.notes = [unit[0]]
-                return r
-            for rank, key, what, point, count in todo:
-                one = common.run_units(_rep, [(key, point)], tier, jobs=1, fresh_process_per_unit=True)
-                replays[key] = one
+        replays = confirm(mod, [(key, point) for rank, key, what, point, count in todo], tier) if todo else {}
         for rank, key, what, point, count in todo:
-            r2 = replays[key]
-            if key not in r2.violations:
+            if key not in replays[key]:
                 raise HarnessError("violation %s did not reproduce from its replay point %r (got %r)"
-                                   % (key, point, sorted(r2.violations)))
+                                   % (key, point, sorted(replays[key])[:5]))
             confirmed.append((key, what, point, count))
         covered = getattr(mod, 'covers_key', lambda k, t: True)
         stale = [k for (p, k) in known if p == pid and k not in res.violations and covered(k, tier)]
